@@ -10,7 +10,8 @@ import traceback
 
 VERIF = os.path.dirname(os.path.dirname(os.path.abspath(__file__)))
 REPO = os.environ.get('VERIF_REPO', '/repo')
-OUT = os.path.join(VERIF, 'out')
+OUT = os.environ.get('VERIF_OUT', os.path.join(VERIF, 'out'))
+EVIDENCE = os.environ.get('VERIF_EVIDENCE_DIR', os.path.join(VERIF, 'evidence'))
 
 STUBS_ASM = [
     'asm.c_uint32/c_int32(x).value = x mod 2^32 / signed reinterpretation (ctypes contract)',
@@ -213,8 +214,8 @@ def finish(prop, tier, seed, results, t0, *, bounds, stubs, assumptions, outside
     ev = dict(property_id=prop, tier=tier, seed=seed, level=level, coverage=cov,
               assumptions=assumptions, wall_s=round(time.time() - t0, 2), violations=len(violations),
               status={0: 'held', 1: 'violation', 2: 'inconclusive-or-harness-error'}[status])
-    os.makedirs(os.path.join(VERIF, 'evidence'), exist_ok=True)
-    with open(os.path.join(VERIF, 'evidence', prop + '.json'), 'w') as f:
+    os.makedirs(EVIDENCE, exist_ok=True)
+    with open(os.path.join(EVIDENCE, prop + '.json'), 'w') as f:
         json.dump(ev, f, indent=1, default=str)
     if os.environ.get('VERIF_SLOW'):
         for r in sorted(results, key=lambda r: -r.get('wall', 0))[:6]:
